@@ -40,7 +40,8 @@ def generate(rseed, tier='quick'):
     ops.append({'op': 'boot'})
   rules = []
   names = []
-  generations = r.randint(1, 3)
+  saved_names = []
+  generations = r.randint(1, 3) if r.random() < 0.8 else 4
   for g in range(generations):
     for _ in range(r.randint(1, 4)):
       e = editgen.draw_edit(r, spec, pool, 0, rules, knobs['faults'])
@@ -59,8 +60,17 @@ def generate(rseed, tier='quick'):
         ops.append(e)  # edit between quantize and save: save() must write the quantized recipe
     name = 'm%d' % len(names)
     via = 'save' if did_q and r.random() < 0.8 else 'dump'
+    if knobs['faults'] and via == 'save' and saved_names and r.random() < 0.3:
+      # save() into a name that already holds an earlier generation: must raise and leave the
+      # older pair (model + recipe) as it was; the restart below reads that older pair
+      old = r.choice(saved_names)
+      ops.append({'op': 'checkpoint', 'q': 0, 'via': 'save', 'name': old, 'fault': 'save_existing'})
+      ops.append({'op': 'restart', 'q': 0, 'from': old})
+      continue
     ops.append({'op': 'checkpoint', 'q': 0, 'via': via, 'name': name})
     names.append(name)
+    if via == 'save':
+      saved_names.append(name)
     if knobs['faults'] and via == 'save' and r.random() < 0.15:
       ops.append({'op': 'checkpoint', 'q': 0, 'via': 'save', 'name': name, 'fault': 'save_existing'})
     ops.append({'op': 'restart', 'q': 0, 'from': name if r.random() < 0.9 else r.choice(names)})
@@ -231,6 +241,8 @@ def execute(doc):
           rec.probe('checkpoint_save')
         except FileExistsError:
           rec.fault('save_existing')
+          if name in checkpoints and checkpoints[name]['expect']['export'] != last['export']:
+            rec.probe('save_existing_with_newer_recipe')
           rec.event(step, 'checkpoint', 'raised:FileExistsError')
         except Exception as e:  # pylint: disable=broad-except
           rec.event(step, 'checkpoint', 'raised:' + harness.exc_class(e))
